@@ -71,6 +71,7 @@ class Evaluator:
         self.crate = crate
         self.max_depth = max_depth
         self.closures = {}
+        self.refs = {}           # value term of a mutable element reference -> (collection place node, index term)
         self.nclo = 0
         self.bvd = 0
         self.trace = []          # (kind, node, info) events recorded during evaluation
@@ -266,6 +267,18 @@ class Evaluator:
                 return self.norm_sum_iter(('map', it[1], ('lam', d, T.ite(p, T.as_lin(T.bv(d)), T.const(0)))))
         return it
 
+    def count_stage(self, name, it, n):
+        """take / skip commute with map; on a range they move its bounds"""
+        if name in ('take', 'skip') and isinstance(it, tuple) and it and it[0] == 'map':
+            return ('map', self.count_stage(name, it[1], n), it[2])
+        if name in ('take', 'skip') and isinstance(it, tuple) and it and it[0] == 'range' and T.is_lin(n) and T.is_lin(it[1]):
+            lo, hi = it[1], it[2]
+            if name == 'take':
+                end = T.add(lo, n)
+                return ('range', lo, end if hi == ('inf',) else T.tmin(hi, end))
+            return ('range', T.add(lo, n), hi)
+        return (name, it, n)
+
     def stage(self, name, it, lam):
         """build a lambda stage, fusing map.map and normalising trivial forms"""
         if name == 'map' and isinstance(it, tuple) and it and it[0] == 'map':
@@ -273,6 +286,8 @@ class Evaluator:
             if inner[0] == 'lam' and lam[0] == 'lam':
                 body = T.substitute(lam[2], {T.bv(lam[1]): self.shift_bv(inner[2], inner[1], lam[1])})
                 return ('map', it[1], ('lam', lam[1], body))
+        if name == 'map' and lam[0] == 'lam' and lam[2] in (T.bv(lam[1]), T.as_lin(T.bv(lam[1]))):
+            return it       # map(it, |x| x)
         return (name, it, lam)
 
     def shift_bv(self, t, frm, to):
@@ -309,6 +324,8 @@ class Evaluator:
                     self.bind(q, T.proj(hit, v[2]) if v[0] == 'optproj' else T.substitute(v[2][2], {T.bv(v[2][1]): hit}), env)
                 elif isinstance(v, tuple) and v and v[0] in ('some', 'ok', 'err') and short.lower() == v[0] and i == 0:
                     self.bind(q, v[1], env)
+                elif self.opt_view(v) is not None and short == 'Some' and i == 0:
+                    self.bind(q, self.opt_view(v)[1], env)
                 else:
                     self.bind(q, ('case', v, short, i), env)
         elif k == 'Struct':
@@ -464,6 +481,11 @@ class Evaluator:
             return rb
         if rb == ('never',):
             return ra
+        # match o { Some(x) => x, None => d }  ==  o.unwrap_or(d)
+        for c, x, y in ((cond, ra, rb), (T.tnot(cond) if T.is_bool(cond) else None, rb, ra)):
+            if isinstance(c, tuple) and c and c[0] == 'matches' and c[2] in ('Some', 'Ok') and T.unroot(x) == ('case', c[1], c[2], 0) \
+                    and not T.mentions(y, ('case', c[1], c[2], 0)):
+                return self.opt_or(c[1], y)
         if T.is_lin(ra) or T.is_lin(rb) or T.is_bool(ra):
             try:
                 return T.ite(cond, ra, rb)
@@ -578,6 +600,9 @@ class Evaluator:
     def ev_Index(self, e, env, body, depth):
         b = self.ev(e['e'], env, body, depth)
         i = self.ev(e['i'], env, body, depth)
+        bu = T.unroot(b)
+        if isinstance(bu, tuple) and bu and bu[0] == 'tup' and T.is_lin(i) and T.is_const(i) and 0 <= i[1] < len(bu[1]):
+            return bu[1][i[1]]       # constant index into a window of known width: in bounds by construction
         self.emit('index', e, body, base=b, idx=i, base_ty=e.get('base_ty'))
         return T.root(('idx', T.unroot(b), i))
 
@@ -657,12 +682,13 @@ class Evaluator:
                 xu = T.unroot(x)
                 if isinstance(xu, tuple) and xu and xu[0] == 'some':
                     return xu[1]
-                cond = ('matches', xu, 'Some')
+                ov = self.opt_view(xu)
+                cond = ov[0] if ov is not None else ('matches', xu, 'Some')
                 self.with_pc([T.tnot(cond)], lambda: self.emit('ret', e, body, value=('none',), joined=False))
                 c2 = T.simplify_under(cond, self.pc)
                 if c2 != T.TRUE:
                     self.pc.append(c2)      # holds until the enclosing scope ends (with_pc truncates)
-                return T.root(('case', xu, 'Some', 0))
+                return ov[1] if ov is not None else T.root(('case', xu, 'Some', 0))
             return T.root(('try', T.unroot(x)))
         if src == 'ForLoopDesugar':
             return self.ev_forloop(e, env, body, depth)
@@ -756,8 +782,11 @@ class Evaluator:
             if isinstance(su, tuple) and su and su[0] in ('optproj', 'optmap') and isinstance(su[1], tuple) and su[1] and su[1][0] == 'first':
                 view = su           # an Option computed from a search: test the search, project the hit
                 su = su[1]
+            ov = self.opt_view(su)
             if short == 'None':
-                base = T.tnot(('matches', su, 'Some'))
+                base = T.tnot(ov[0] if ov is not None else ('matches', su, 'Some'))
+            elif short == 'Some' and ov is not None:
+                base = ov[0]
             elif short == 'Err':
                 base = T.tnot(('matches', su, 'Ok'))
             elif short in ('Some', 'Ok'):
@@ -768,6 +797,8 @@ class Evaluator:
             if k == 'TupleStruct':
                 for i, q in enumerate(p['ps']):
                     v = su[1] if (isinstance(su, tuple) and su and su[0] in ('some', 'ok', 'err') and i == 0) else ('case', su, short, i)
+                    if ov is not None and short == 'Some' and i == 0:
+                        v = ov[1]
                     if view is not None and short == 'Some' and i == 0:
                         v = T.proj(v, view[2]) if view[0] == 'optproj' else T.substitute(view[2][2], {T.bv(view[2][1]): v})
                     c = self.full_pattern_cond(q, v)
@@ -877,6 +908,8 @@ class Evaluator:
             if not T.is_bool(b):
                 return None
             return b if p['lit'].get('v') else T.tnot(b)
+        if k == 'Lit' and p['lit'].get('lk') == 'Int' and not p['lit'].get('neg') and self.numericish(scrut):
+            return T.cmp('Eq', T.as_lin(scrut), T.const(int(p['lit']['v'])))
         if k == 'Tuple':
             cs = []
             for i, q in enumerate(p['ps']):
@@ -1111,16 +1144,89 @@ class Evaluator:
 
     def ev_Loop(self, e, env, body, depth):
         snapshot = dict(env)
+        derived = self.derived_loop_vars(e, snapshot, body, depth)
         self.havoc(e, env)
+        env.update(derived)
         self.trace.append(('loop', e, None))
-        self.emit('loop', e, body, src=e.get('src'), env_before=snapshot, env_head=dict(env))
+        mark = len(self.events)
+        self.emit('loop', e, body, src=e.get('src'), env_before=snapshot, env_head=dict(env), derived=tuple(sorted(derived)))
         self.loops.append(e)
         try:
             self.ev(e['body'], dict(env), body, depth)
         finally:
             self.loops.pop()
+        for x in self.events[mark:]:
+            if x['kind'] == 'assign' and x.get('local') in derived and not x.get('fields') and e.get('_nid') in x['loops']:
+                x['derived'] = True     # re-establishes v = F(t) for the next iteration: not an independent effect
         self.havoc(e, env)
+        env.update(derived)
         return ('loopval', e.get('_nid'))
+
+    def derived_loop_vars(self, e, snapshot, body, depth):
+        """loop-carried locals that are a function of another one at every loop head:  v is initialised to F(t0) and the
+        only assignment to v in the body stores F(t') right where t' is stored into t (the `primed` form of a loop that
+        recomputes F(t) at the top of each iteration).  Returns {local id: F(t at the loop head)}."""
+        if getattr(self, '_probing', 0) >= 2:
+            return {}
+        nid = e.get('_nid')
+        env = dict(snapshot)
+        self.havoc(e, env)
+        carried = [lid for lid in sorted(self.assigned_locals(e)) if lid in env and T.unroot(env[lid]) == ('havoc', lid, nid)]
+        if len(carried) < 2:
+            return {}
+        marks = (len(self.events), len(self.trace), len(self.pc), len(self.unknown))
+        saved_hit = getattr(self, 'search_hit', None)
+        saved_refs = dict(self.refs)
+        self._probing = getattr(self, '_probing', 0) + 1
+        self.loops.append(e)
+        try:
+            self.ev(e['body'], dict(env), body, depth)
+            probe = self.events[marks[0]:]
+        except RecursionError:
+            probe = []
+        finally:
+            self.loops.pop()
+            self._probing -= 1
+            del self.events[marks[0]:]
+            del self.trace[marks[1]:]
+            del self.pc[marks[2]:]
+            del self.unknown[marks[3]:]
+            self.search_hit = saved_hit
+            self.refs = saved_refs
+        level = tuple(l.get('_nid') for l in self.loops) + (nid,)
+        here = len(self.stack)
+        asg, dirty = {}, set()
+        for x in probe:
+            if x['kind'] == 'assign' and x.get('local') in carried:
+                if x['depth'] != here or x['loops'] != level or x.get('fields'):
+                    dirty.add(x['local'])
+                asg.setdefault(x['local'], []).append(x)
+            if x['kind'] == 'mutcall' and x.get('target') in carried:
+                dirty.add(x['target'])
+        ok = [l for l in carried if l not in dirty and len(asg.get(l, [])) == 1]
+        out = {}
+        X = ('derivedarg',)
+        mine = lambda t: any(isinstance(y, tuple) and len(y) == 3 and y[0] == 'havoc' and y[2] == nid for y in T.subterms(t))
+        for v in ok:
+            vs = asg[v][0]['value']
+            if not self.numericish(vs):
+                continue
+            for t in ok:
+                if t == v or t in out or asg[t][0]['pc'] != asg[v][0]['pc']:
+                    continue
+                vt = asg[t][0]['value']
+                if not self.numericish(vt) or vt == T.as_lin(T.root(('havoc', t, nid))):
+                    continue
+                F = T.substitute(T.as_lin(vs), {T.as_lin(vt): T.root(X), T.unroot(T.as_lin(vt)): T.root(X)})
+                if not T.mentions(F, X) or mine(F):
+                    continue
+                i_v, i_t = snapshot.get(v), snapshot.get(t)
+                if i_v is None or i_t is None or not self.numericish(i_v) or not self.numericish(i_t):
+                    continue
+                if T.as_lin(T.substitute(F, {X: T.as_lin(i_t)})) == T.as_lin(i_v):
+                    out[v] = T.as_lin(T.substitute(F, {X: T.root(('havoc', t, nid))}))
+                    break
+        return out
 
     def ev_Assign(self, e, env, body, depth):
         v = self.ev(e['r'], env, body, depth)
@@ -1138,6 +1244,17 @@ class Evaluator:
         return ('unit',)
 
     def assign(self, place, v, env, body, depth):
+        # `*r = v` where r holds a mutable reference to an element of a collection
+        q = place
+        while q.get('k') in ('DropTemps', 'Use'):
+            q = q['e']
+        if q.get('k') == 'Unary' and q.get('op') == 'Deref' and q['e'].get('k') == 'Path' and q['e'].get('res') == 'Local':
+            tgt = self.refs.get(T.as_lin(env.get(q['e']['id']))) if q['e']['id'] in env and self.numericish(env[q['e']['id']]) else None
+            if tgt is not None:
+                coll, ix = tgt
+                self.emit('assign', place, body, local=self.place_root(coll), name=self.place_text(coll) + '[' + T.show(ix) + ']',
+                          fields=('[]',), value=v)
+                return
         # local or field-of-local
         p = place
         fields = []
@@ -1322,12 +1439,19 @@ class Evaluator:
         impl_path = self.static_impl(e) if same_method else None
         if impl_path is not None:
             b = self.crate.body(impl_path)
-            if b is not None and b is not body and not self.has_loop(b) and depth < self.max_depth and impl_path not in [c for c, _, _ in self.stack]:
-                self.stack.append((impl_path, e, body))
-                try:
-                    return self.unwrap_ret(self.eval_body(b, args, depth + 1))
-                finally:
-                    self.stack.pop()
+            if b is not None and b is not body and depth < self.max_depth and impl_path not in [c for c, _, _ in self.stack]:
+                if self.has_loop(b):
+                    # inlined exactly when every loop of the implementation reduces (so a loop and the iterator chain
+                    # it is equivalent to are treated alike)
+                    v = self.try_inline_loop_fn(b, impl_path, args, e, body, depth)
+                    if v is not None:
+                        return v
+                else:
+                    self.stack.append((impl_path, e, body))
+                    try:
+                        return self.unwrap_ret(self.eval_body(b, args, depth + 1))
+                    finally:
+                        self.stack.pop()
         adj = e['recv'].get('adj') or []
         if e['name'] in ('sort', 'sort_unstable') and ('slice' in callee or 'Vec' in callee) and not e['args']:
             # in-place sort of a local collection: the local now holds the sorted sequence
@@ -1336,7 +1460,8 @@ class Evaluator:
                 env[lid] = ('sorted', self.as_iter(recv))
                 return ('unit',)
         if (any('Mut' in a and 'Borrow' in a for a in adj) or e.get('recv_ty', '').startswith('&mut')) \
-                and not (callee.startswith('std::iter::Iterator::') and e['recv'].get('k') == 'MethodCall'):
+                and not (callee.startswith('std::iter::Iterator::') and e['recv'].get('k') == 'MethodCall') \
+                and not (e['name'] == 'get_mut' and ('slice' in callee or 'Vec' in callee)):
             self.emit('mutcall', e, body, callee=callee, args=tuple(args), target=self.place_root(e['recv']),
                       place=self.place_text(e['recv']))
         elif e.get('callee_local'):
@@ -1439,9 +1564,21 @@ class Evaluator:
         if is_iter_method:
             if name in LAMBDA_STAGES and len(args) == 2:
                 it0 = self.as_iter(a0)
+                if name == 'map' and isinstance(it0, tuple) and it0 and it0[0] == 'map' and it0[2][0] == 'lam' and self.closure_obj(args[1]) is not None:
+                    # map over a map: apply the closure to the inner body directly, so that the arithmetic it does is
+                    # recorded over the underlying items (e.g. windows of a slice -> elements of the slice)
+                    d0 = it0[2][1]
+                    old = self.bvd
+                    self.bvd = max(self.bvd, d0 + 1, self.closure_obj(args[1]).bvd)
+                    try:
+                        facts = self.item_facts(it0[1], T.as_lin(T.bv(d0)))
+                        inner = self.with_pc(facts, lambda: self.apply(args[1], [it0[2][2]], depth))
+                    finally:
+                        self.bvd = old
+                    return self.stage('map', it0[1], ('lam', d0, inner))
                 return self.stage(name, it0, self.lam(args[1], depth, 1, it0))
             if name in COUNT_STAGES and len(args) == 2:
-                return (name, self.as_iter(a0), args[1])
+                return self.count_stage(name, self.as_iter(a0), args[1])
             if name in PLAIN_STAGES and len(args) == 1:
                 return (name, self.as_iter(a0))
             if name in BINARY_STAGES and len(args) == 2:
@@ -1454,7 +1591,7 @@ class Evaluator:
                 it = self.as_iter(a0)
                 return T.tup(it, it)
             if name in ('sum', 'product', 'max', 'min', 'max_by', 'min_by', 'count', 'last', 'next', 'peek', 'any', 'all',
-                        'collect', 'fold', 'for_each', 'find', 'position', 'nth') and node is not None:
+                        'collect', 'fold', 'reduce', 'for_each', 'find', 'position', 'nth') and node is not None:
                 self.emit('consume', node, body, it=self.as_iter(a0), consumer=name)
             if name == 'sum':
                 return T.root(('sum', self.norm_sum_iter(self.as_iter(a0))))
@@ -1471,13 +1608,14 @@ class Evaluator:
                     # fold(init, |acc, x| acc + g(x))  ==  init + sum(map(it, g))
                     g = T.sub(bodyl, T.root(acc))
                     g = T.substitute(g, {T.bv(d + 1): T.bv(d)})
-                    return T.add(args[1], T.root(('sum', self.norm_sum_iter(('map', it0, ('lam', d, g))))))
+                    mapped = it0 if g == T.as_lin(T.bv(d)) else ('map', it0, ('lam', d, g))
+                    return T.add(args[1], T.root(('sum', self.norm_sum_iter(mapped))))
                 bu = T.unroot(lam2[2])
                 if isinstance(bu, tuple) and bu and bu[0] in ('min', 'max') and T.as_lin(acc) in bu[1] and len(bu[1]) == 2:
                     other = [x for x in bu[1] if x != T.as_lin(acc)][0]
                     if not T.mentions(other, acc):
                         g = T.substitute(other, {T.bv(d + 1): T.bv(d)})
-                        agg = ('minof' if bu[0] == 'min' else 'maxof', ('map', it0, ('lam', d, g)))
+                        agg = ('minof' if bu[0] == 'min' else 'maxof', self.stage('map', it0, ('lam', d, g)))
                         return (T.tmin if bu[0] == 'min' else T.tmax)(args[1], T.root(agg))
                 return T.root(('fold', it0, T.unroot(args[1]), lam2))
             if name == 'max':
@@ -1486,6 +1624,8 @@ class Evaluator:
                 return ('minof', self.as_iter(a0))
             if name == 'max_by' and len(args) == 2:
                 return ('max_by', self.as_iter(a0), self.lam(args[1], depth, 2))
+            if name == 'reduce' and len(args) == 2:
+                return ('reduce', self.as_iter(a0), self.lam(args[1], depth, 2))
             if name in ('count',):
                 return T.root(('count', self.as_iter(a0)))
             if name == 'position' and len(args) == 2:
@@ -1525,7 +1665,13 @@ class Evaluator:
                 v = T.unroot(a0)
                 if isinstance(v, tuple) and v and v[0] in ('some', 'ok'):
                     return v[1]
-                return T.root(('unwrap', v))
+                if self.opt_view(v) is not None:
+                    return self.opt_view(v)[1]
+                # the payload of the Some / Ok variant: the same term a pattern binding produces
+                return T.root(('case', v, 'Ok' if path.startswith('std::result::Result') else 'Some', 0))
+            if name == 'map' and len(args) == 2 and path.startswith('std::result::Result'):
+                # r.map(f)  ==  Ok(f(r?)): the error is propagated unchanged, the value is transformed
+                return ('ok', self.apply(args[1], [T.root(('try', T.unroot(a0)))], depth))
             if name == 'map' and len(args) == 2:
                 return ('optmap', T.unroot(a0), self.lam(args[1], depth))
             if name == 'map_or' and len(args) == 3:
@@ -1535,11 +1681,39 @@ class Evaluator:
             if name == 'filter' and len(args) == 2:
                 return ('optfilter', T.unroot(a0), self.lam(args[1], depth))
             if name in ('is_err', 'is_ok', 'is_some', 'is_none'):
-                return (name, T.unroot(a0))
+                # the same condition a pattern test produces
+                ov = self.opt_view(T.unroot(a0))
+                m = ov[0] if ov is not None else ('matches', T.unroot(a0), 'Ok' if name in ('is_err', 'is_ok') else 'Some')
+                return m if name in ('is_ok', 'is_some') else T.tnot(m)
         if path.startswith('std::iter::Peekable') and name in ('peek', 'next', 'next_if', 'next_if_eq', 'peek_mut'):
             if node is not None:
                 self.emit('consume', node, body, it=self.as_iter(a0), consumer='peek' if 'peek' in name else 'next')
             return ('peekof', self.as_iter(a0))
+        if name in ('then', 'then_some') and len(args) == 2 and 'bool' in path and T.is_bool(args[0]):
+            # c.then(f) is Some(f()) iff c; f runs under c
+            v = self.with_pc([args[0]], lambda: self.apply(args[1], [], depth)) if name == 'then' else args[1]
+            return ('boolthen', args[0], v)
+        if name == 'windows' and len(args) == 2 and 'slice' in path and T.is_lin(args[1]) and T.is_const(args[1]) and 1 <= args[1][1] <= 4:
+            # v[lo..hi].windows(k): one window per end position i in lo+k-1..hi, holding v[i-k+1], .., v[i]
+            k = args[1][1]
+            base = T.unroot(a0)
+            lo, hi = T.const(0), None
+            if isinstance(base, tuple) and base and base[0] == 'idx' and isinstance(base[2], tuple) and base[2] and base[2][0] == 'range' \
+                    and base[2][2] != ('inf',):
+                base, lo, hi = base[1], base[2][1], base[2][2]
+            if hi is None:
+                hi = T.root(('len', base))
+            d = self.bvd
+            win = T.tup(*[T.root(('idx', base, T.sub(T.as_lin(T.bv(d)), T.const(k - 1 - j)))) for j in range(k)])
+            return ('map', ('range', T.add(lo, T.const(k - 1)), hi), ('lam', d, win))
+        if name in ('get', 'get_mut') and len(args) == 2 and ('slice' in path or 'Vec' in path) and self.numericish(args[1]):
+            base = T.unroot(a0)
+            if isinstance(base, tuple) and base and base[0] == 'elemhavoc':
+                base = base[1]
+            if name == 'get_mut' and node is not None:
+                # a later `*r = x` through the reference this Option holds is a write to base[i]
+                self.refs[T.root(('idx', base, T.as_lin(args[1])))] = (node['recv'], T.as_lin(args[1]))
+            return ('optidx', base, T.as_lin(args[1]))
         if name == 'len' and len(args) == 1 and ('slice' in path or 'Vec' in path or 'VecDeque' in path):
             v = T.unroot(a0)
             if isinstance(v, tuple) and v and v[0] == 'elemhavoc':
@@ -1634,8 +1808,23 @@ class Evaluator:
             return v[1]
         return v
 
+    def opt_view(self, su):
+        """(condition for Some, payload) of an Option-valued term whose Some-ness has an arithmetic meaning:
+        v.get(i) is Some(v[i]) iff i < len(v);  a.checked_sub(b) is Some(a - b) iff b <= a"""
+        if isinstance(su, tuple) and su:
+            if su[0] == 'optidx':
+                return T.cmp('Lt', su[2], T.root(('len', su[1]))), T.root(('idx', su[1], su[2]))
+            if su[0] == 'csub':
+                return T.cmp('Le', su[2], su[1]), T.sub(su[1], su[2])
+            if su[0] == 'boolthen':
+                return su[1], su[2]
+        return None
+
     def opt_or(self, o, d):
         o = T.unroot(o)
+        ov = self.opt_view(o)
+        if ov is not None and not (o[0] == 'csub' and T.as_lin(d) == T.const(0)):
+            return T.ite(ov[0], ov[1], d)
         if isinstance(o, tuple) and o and o[0] in ('optproj', 'optmap') and isinstance(o[1], tuple) and o[1] and o[1][0] == 'first':
             F = o[1]
             hit = ('case', F, 'Some', 0)
